@@ -73,6 +73,16 @@ CORPUS = [
     {"label": "-r", "args": ["-r"], "child_script": "exit_after=5000,on_term=exit:0",
      "events": [{"k": "change", "at_ms": 150}, {"k": "change", "at_ms": 400}, {"k": "change", "at_ms": 650}], "wait_ms": 400,
      "mode": 0, "restart": True, "signal": None, "stop": None, "postpone": False, "eff": 2, "life": 5000, "react": "exit:0"},
+    # a change and a forwarded OS signal in one debounce window: the signal is passed on AND the change is acted upon
+    {"label": "default", "args": ["--postpone"], "child_script": "exit_after=5000,on_usr1=ignore,on_term=exit:0",
+     "events": [{"k": "change", "at_ms": 100}, {"k": "signal", "sig": "User1", "at_ms": 120}], "wait_ms": 500,
+     "mode": 0, "restart": False, "signal": None, "stop": None, "postpone": True, "eff": 0, "life": 5000, "react": "exit:0"},
+    {"label": "-r", "args": ["-r"], "child_script": "exit_after=5000,on_usr1=ignore,on_term=exit:0",
+     "events": [{"k": "signal", "sig": "User1", "at_ms": 200}, {"k": "change", "at_ms": 215}], "wait_ms": 500,
+     "mode": 0, "restart": True, "signal": None, "stop": None, "postpone": False, "eff": 2, "life": 5000, "react": "exit:0"},
+    {"label": "queue", "args": ["--on-busy-update=queue"], "child_script": "exit_after=400,on_usr1=ignore",
+     "events": [{"k": "change", "at_ms": 150}, {"k": "signal", "sig": "User1", "at_ms": 170}], "wait_ms": 900,
+     "mode": 1, "restart": False, "signal": None, "stop": None, "postpone": False, "eff": 1, "life": 400, "react": "exit:0"},
     # do-nothing then idle start
     {"label": "default", "args": [], "child_script": "exit_after=300",
      "events": [{"k": "change", "at_ms": 100}, {"k": "change", "at_ms": 500}], "wait_ms": 700,
@@ -107,18 +117,23 @@ def timeline(case, o):
     for s in o["sent"]:
         if s["k"] == "startup":
             items.append((s["t"], "chg", None))
-        elif s["k"] == "change":
+        elif s["k"] in ("change", "signal"):
+            # the debounce window is opened by the first event of any kind; the batch acts as a change if it holds one
             if batches and s["t"] - batches[-1][0] < DEBOUNCE - 5:
-                batches[-1][1] += 1
+                batches[-1][1] += 1 if s["k"] == "change" else 0
             else:
-                batches.append([s["t"], 1])
+                batches.append([s["t"], 1 if s["k"] == "change" else 0])
     for t, n in batches:
-        items.append((t + DEBOUNCE, "chg", n))
+        if n:
+            items.append((t + DEBOUNCE, "chg", n))
     stopped = set()
     sigs = []
+    fwd = {{"User1": 10, "User2": 12, "Hangup": 1}.get(e.get("sig")) for e in case["events"] if e["k"] == "signal"}
     for l in o["child_log"]:
         if l["ev"] == "start":
             items.append((l["t"], "start", l))
+        elif l["ev"] == "signal" and l["sig"] in fwd:
+            continue                      # an OS signal passed on to the command: not an on-busy action
         elif l["ev"] == "signal":
             items.append((l["t"], "sig", l))
             sigs.append(l)
